@@ -147,6 +147,10 @@ let handle line =
       bump ("CLS:" ^ res);
       Hashtbl.replace distinct ("C" ^ line) ();
       if m <> res then mismatch line ("classify model=" ^ m)
+  | ["ATOMIC"; hid; start; k; "=>"; res] ->
+      incr pn;
+      bump ("ATOMIC:" ^ res);
+      if res <> "checked" then propfail line "resolved-to-wrong-outcome" "every key of a transaction with a committed primary carries that commit or the lock"
   | "ALIAS" :: hid :: what :: rest ->
       incr pn;
       let res = List.nth rest (List.length rest - 1) in
